@@ -366,6 +366,8 @@ type Runner struct {
 	rng     *vw.Rng
 	dead    bool // an Append failed half-way: the log must be reopened before further use
 	pend    int64 // number of records of the failed batch that may have reached the file
+	synced  map[string]int64 // per file: length covered by the last fsync (created files start at 0)
+	clsTag  string           // appended to the state class in signatures
 	nviol   int
 	seen    map[string]bool
 	desc    strings.Builder
@@ -907,6 +909,13 @@ func (r *Runner) Reopen() bool {
 		}
 		r.dead = false
 		r.pend = 0
+		// the surviving prefix of the failed batch was adopted as part of the log: from here on it counts as
+		// durable (a failed Append leaves the log outside the documented contract; see notes)
+		for name, content := range readDir(r.dir) {
+			if _, ok := seqOf(name); ok && r.synced != nil {
+				r.synced[name] = int64(len(content))
+			}
+		}
 	}
 	r.checkLive(OpReopen, q, "-"+cls)
 	if r.nviol == 0 {
@@ -986,10 +995,73 @@ func cutSet(n int64, all bool) []int64 {
 }
 
 // crashStates enumerates every crash state of one operation and judges the reopened log.
+// applySync advances the per-file synced lengths over one mutation (state after it = snap).
+func applySync(synced map[string]int64, m Mut, snap snapshot) {
+	name := fmt.Sprintf("wal-%.10d.log", m.Seq)
+	switch m.Kind {
+	case MCreate:
+		synced[name] = 0
+	case MSync:
+		synced[name] = int64(len(snap[name]))
+	case MTruncate, MRepair:
+		if int64(len(snap[name])) < synced[name] {
+			synced[name] = int64(len(snap[name]))
+		}
+	case MUnlink:
+		delete(synced, name)
+	}
+}
+
+// unsyncedStates: "every prefix of the last unsynced write". If, when the operation starts, some file holds bytes
+// that no fsync covered (an earlier Append returned without syncing), those bytes may vanish at any crash point:
+// the state with every file cut back to its synced length is judged like any other crash state. With the code as
+// it stands this never happens (every Append ends with an fsync of the file it wrote), so it costs nothing.
+func (r *Runner) unsyncedStates(op int, c *collector, b bounds) {
+	dirty := false
+	for name, content := range c.snaps[0] {
+		if _, ok := seqOf(name); ok && int64(len(content)) > r.synced[name] {
+			dirty = true
+		}
+	}
+	cur := map[string]int64{}
+	for k, v := range r.synced {
+		cur[k] = v
+	}
+	for j := 0; j <= len(c.muts); j++ {
+		if j > 0 {
+			applySync(cur, c.muts[j-1], c.snaps[j])
+		}
+		if !dirty {
+			continue
+		}
+		s := make(snapshot, len(c.snaps[j]))
+		changed := false
+		for name, content := range c.snaps[j] {
+			if _, ok := seqOf(name); ok && int64(len(content)) > cur[name] {
+				s[name] = content[:cur[name]]
+				changed = true
+			} else {
+				s[name] = content
+			}
+		}
+		if changed {
+			r.clsTag = "-unsynced"
+			r.evalCrash(op, c, j, -1, s, b, false)
+			r.clsTag = ""
+			vw.Stat("crash.unsynced.states", 1)
+		}
+	}
+	r.synced = cur
+}
+
 func (r *Runner) crashStates(op int, c *collector, b bounds) {
 	if !c.snap {
 		return
 	}
+	if r.synced == nil {
+		r.synced = map[string]int64{}
+	}
+	defer r.unsyncedStates(op, c, b)
 	vw.Stat("crash.ops", 1)
 	n := len(c.muts)
 	for j := 0; j <= n; j++ {
@@ -1029,7 +1101,7 @@ func (r *Runner) crashStates(op int, c *collector, b bounds) {
 
 func (r *Runner) evalCrash(op int, c *collector, j int, cut int64, s snapshot, b bounds, onWire bool) {
 	vw.Stat("crash.states", 1)
-	cls := classify(s)
+	cls := classify(s) + r.clsTag
 	vw.Stat("crash.class."+cls, 1)
 	tag := cls + "-in-" + opName[op]
 	materialise(r.evalDir, s)
